@@ -13,6 +13,12 @@ P.assume_note("two independently coded series (planet and Earth) meet in this pr
               "are run-time contracts on a stated grid (bounded). The frame clause (the caller's Epoch is not shifted) is "
               "proved for every geocentric_position by the frame analysis of C20 and re-checked at run time here")
 
+from contracts import c02 as _c02
+
+# the light-time step is  epoch - tau : Epoch arithmetic, whose contract ((e - x).jde() == e.jde() - x, through the calendar
+# round trip of Epoch.set) is proved under C02 and assumed here
+P.include("C02", ["get_date/fractional", "_compute_jde/fractional-day", "get_full_date/fields-and-roundtrip", "arithmetic"])
+
 PLANETS = ["Mercury", "Venus", "Mars", "Jupiter", "Saturn", "Uranus", "Neptune"]
 J = 2451545.0
 LT = 0.0057755183
@@ -43,7 +49,7 @@ def g_frames(tier):
 
 
 @P.bounded_check("planets/direction-and-elongation", chunks=7,
-                 grid="7 planets x 60 (quick) / 3000 (thorough) seeded epochs in -2000..4000 + daily steps around the "
+                 grid="7 planets x 60 (quick) / 3000 (thorough) seeded epochs in -2000..4000 + 24 quarter days around 1582-10-04/15 + daily steps around the "
                       "greatest elongations of Mercury and Venus")
 def b_planets(rng, tier, k=0, n=1):
     from pymeeus.Epoch import Epoch
@@ -54,8 +60,17 @@ def b_planets(rng, tier, k=0, n=1):
     cls = getattr(importlib.import_module("pymeeus." + pl), pl)
     N = 3000 if tier == "thorough" else 60
     limit = {"Mercury": 28.5, "Venus": 48.0}.get(pl)
-    for i in range(N):
-        jd = J + rng.uniform(-4000, 2000) * 365.25
+    def at(x):
+        """an Epoch whose JDE is exactly x, built without the calendar round trip of the constructor and of Epoch arithmetic
+        (the oracle must not inherit a slip of those: their contracts are the assumed-contract(C02) obligations)"""
+        ep = Epoch.__new__(Epoch)
+        ep._jde = float(x)
+        return ep
+    # the days around the calendar switch (1582-10-04 is followed by 1582-10-15: JDE 2299159.5 .. 2299160.5), where an Epoch
+    # that is rebuilt from its calendar date (epoch - tau) is most exposed
+    switch = [2299157.5 + 0.25 * i for i in range(24)]
+    for i in range(N + len(switch)):
+        jd = J + rng.uniform(-4000, 2000) * 365.25 if i < N else switch[i - N]
         e = Epoch(jd)
         ok, det = True, None
         try:
@@ -63,11 +78,14 @@ def b_planets(rng, tier, k=0, n=1):
             ra, dec, elon = cls.geocentric_position(e)
             if e.jde() != j_before:
                 ok, det = False, ("caller's Epoch shifted", e.jde() - jd)
+            if abs(j_before - jd) > 1e-6:
+                ok, det = False, ("Epoch(jde) does not hold that JDE (assumed contract of the constructor)", j_before - jd)
+            e = at(jd)
             l0, b0, r0 = Earth.geometric_heliocentric_position(e, tofk5=False)
             E0 = tuple(r0 * c for c in uv(l0(), b0()))
             tau = 0.0
             for _ in range(4):
-                l, b, r = cls.geometric_heliocentric_position(Epoch(jd - tau), tofk5=False)
+                l, b, r = cls.geometric_heliocentric_position(at(jd - tau), tofk5=False)
                 Pv = tuple(r * c for c in uv(l(), b()))
                 d = tuple(p - q for p, q in zip(Pv, E0))
                 tau = LT * math.sqrt(sum(c * c for c in d))
@@ -93,7 +111,7 @@ def b_planets(rng, tier, k=0, n=1):
 
 @P.bounded_check("pluto-and-minor-bodies/direction", grid="Pluto 1885-01-01 .. 2099-12-31 incl. both ends, every 300 d (quick) / 30 d (thorough); minor bodies "
                  "q in {0.1, 0.5, 1, 3, 10, 30}, e in {0, .3, .7, .9, .97, .9799, .98, .99, 1-1e-11, 1.0}, 10 orientations (8 fixed incl. the quadrant changes of the orbit constants, 2 seeded), "
-                 "times within +-50 yr of perihelion")
+                 "times within +-50 yr of perihelion; every other body is an existing object re-aimed with set()")
 def b_small(rng, tier):
     from pymeeus.Epoch import Epoch
     from pymeeus.Angle import Angle
@@ -156,6 +174,7 @@ def b_small(rng, tier):
               (170.0, 5.0, 140.0), (0.0, 0.0, 77.0), (89.9, 90.0, 0.0),
               (rng.uniform(0, 180), rng.uniform(0, 360), rng.uniform(0, 360)), (rng.uniform(0, 25), rng.uniform(110, 250), rng.uniform(0, 360)))
     reps = 4 if tier == "thorough" else 1
+    prev, count = None, 0
     for q in qs:
         for ecc in es:
             for (inc, om, w) in orient:
@@ -166,7 +185,13 @@ def b_small(rng, tier):
                     e = Epoch(jd)
                     ok, det = True, None
                     try:
-                        body = Minor(q, float(ecc), Angle(inc), Angle(om), Angle(w), Epoch(tp))
+                        count += 1
+                        if count % 2 and prev is not None:
+                            body = prev                    # an existing body re-aimed with the public set(): same contract
+                            body.set(q, float(ecc), Angle(inc), Angle(om), Angle(w), Epoch(tp))
+                        else:
+                            body = Minor(q, float(ecc), Angle(inc), Angle(om), Angle(w), Epoch(tp))
+                        prev = body
                         out = body.geocentric_position(e)
                         ra, dec, elon = out
                         xs, ys, zs = Sun.rectangular_coordinates_j2000(e)
@@ -193,3 +218,18 @@ def b_small(rng, tier):
                     regime = "parabolic" if abs(ecc - 1.0) < 1e-10 else ("near-parabolic" if ecc >= 0.98 else "elliptic")
                     klass = "no-convergence" if (isinstance(det, str) and "No convergence" in det) else "-"
                     yield (("Minor", regime, q, ecc, inc, round(jd - tp, 2), klass), ok, det)
+
+
+@P.ground_check("representation/Minor.set-rederives-every-field", functions=["pymeeus.Minor:Minor.set", "pymeeus.Minor:Minor.__init__"])
+def g_minor_fields(tier):
+    """a body re-aimed with set() keeps nothing of its previous orbit: every field that the position methods read is assigned by
+    set() on every path (the constructor itself goes through set())"""
+    from pyvc.frames import representation_obligations
+    for label, ok, det in representation_obligations("Minor", "Minor", "set", constant_fields=("_tol",)):
+        if isinstance(label, tuple) and label[1].startswith("__"):
+            continue
+        yield (label, ok, det)
+
+
+P.frame_check(["pymeeus.<Planet>:<Planet>.geocentric_position", "pymeeus.Pluto:Pluto.geocentric_position", "pymeeus.Pluto:Pluto.geometric_heliocentric_position",
+               "pymeeus.Minor:Minor.__init__", "pymeeus.Minor:Minor.geocentric_position", "pymeeus.Minor:Minor.heliocentric_ecliptical_position"])
